@@ -72,6 +72,20 @@ pub struct Spec {
     pub cwd: Vec<(u8, u8)>,
     pub fault: StageFault,
     pub fault_step: u8,
+    /// the first inspection carries the name of the first step (names are not required to differ between the two kinds)
+    #[serde(default)]
+    pub same_name: bool,
+}
+
+/// Name of inspection `i`. With `same_name`, inspection 0 is called like step 0 - unless one of its own rules refers
+/// to that name (MATCH ... FROM step0), where it would be unclear which of the two is meant.
+fn insp_name(spec: &Spec, i: usize) -> String {
+    let refers = |p: &InspPlan| p.expected_materials.iter().chain(p.expected_products.iter()).any(|r| matches!(r, RuleSpec::Match { from, .. } if from == "step0"));
+    if i == 0 && spec.same_name && !spec.steps.is_empty() && !spec.inspections.iter().any(refers) {
+        "step0".to_string()
+    } else {
+        format!("inspect{}", i)
+    }
 }
 
 /// Make `link` report something else than its peers: an extra product, or (odd `variant`, when it has a product)
@@ -206,7 +220,7 @@ pub fn build(spec: &Spec) -> World {
         .inspections
         .iter()
         .enumerate()
-        .map(|(i, p)| InspSpec { name: format!("inspect{}", i), run: script(i, p), expected_materials: p.expected_materials.clone(), expected_products: p.expected_products.clone() })
+        .map(|(i, p)| InspSpec { name: insp_name(spec, i), run: script(i, p), expected_materials: p.expected_materials.clone(), expected_products: p.expected_products.clone() })
         .collect();
     let mut keys: Vec<KeySpec> = (0..spec.steps.len() * 2).map(func).collect();
     keys.push(func(40));
@@ -386,8 +400,9 @@ impl Property for C08 {
             proptest::collection::vec((any::<u8>(), any::<u8>()), 0..4),
             stage,
             any::<u8>(),
+            prop_oneof![3 => Just(false), 1 => Just(true)],
         )
-            .prop_map(|(steps, inspections, cwd, fault, fault_step)| Spec { steps, inspections, cwd, fault, fault_step })
+            .prop_map(|(steps, inspections, cwd, fault, fault_step, same_name)| Spec { steps, inspections, cwd, fault, fault_step, same_name })
             .boxed()
     }
     fn check(spec: &Spec, env: &mut Env) -> Outcome {
@@ -450,9 +465,9 @@ impl Property for C08 {
             let mut after = snapshot(&cwd);
             let n = w.layout.inspect.len();
             let sentinels: Vec<bool> = (0..n).map(|i| cwd.join(sentinel(i)).exists()).collect();
-            let linkfiles: Vec<bool> = (0..n).map(|i| cwd.join(format!("inspect{}.link", i)).exists()).collect();
+            let linkfiles: Vec<bool> = (0..n).map(|i| cwd.join(format!("{}.link", w.layout.inspect[i].name)).exists()).collect();
             for i in 0..n {
-                after.remove(&format!("inspect{}.link", i));
+                after.remove(&format!("{}.link", w.layout.inspect[i].name));
             }
             let _ = std::fs::remove_dir_all(&root);
             (r, j, before, after, sentinels, linkfiles)
@@ -515,9 +530,13 @@ impl Property for C08 {
                 o.class("clause3:rules");
                 let mut links: BTreeMap<String, LinkArtifacts> =
                     j.evidence.iter().map(|(n, e)| (n.clone(), LinkArtifacts { materials: e.materials.clone(), products: e.products.clone() })).collect();
-                links.insert("inspect0".into(), LinkArtifacts { materials: before.clone(), products: after.clone() });
+                let iname = insp_name(spec, 0);
+                if iname != "inspect0" {
+                    o.class("inspection-named-like-a-step");
+                }
+                links.insert(iname.clone(), LinkArtifacts { materials: before.clone(), products: after.clone() });
                 let p = &spec.inspections[0];
-                let verdict = spec_rules("inspect0", &p.expected_materials, &p.expected_products, &links);
+                let verdict = spec_rules(&iname, &p.expected_materials, &p.expected_products, &links);
                 match verdict {
                     Verdict::Reject(reason) => {
                         o.class("clause3:reference-rejects");
